@@ -9,3 +9,27 @@ Example C17_regex_examples :
   (exists m, regex_match "exd8=Q+" = Some m /\ sm_file m = Some "e"%char /\ sm_promo m = Some "Q"%char) /\
   regex_match "O-O" = None.
 Proof. vm_compute. repeat split; eexists; repeat split; reflexivity. Qed.
+Print Assumptions C17_regex_examples.
+
+(* ---- the property as a theorem about the model of Position::san / parse_san (Chess/San.v, tied to the C++ by checks/c17.py) ----
+   For EVERY position and EVERY legal move of it: parsing the printed SAN in the same position gives the move back (castling, captures,
+   file / rank / file+rank disambiguation, pawn captures, promotions, check and mate suffixes) ... *)
+From CV Require Import Chess.SanProofs.
+Theorem C17_san_parses_back_to_the_same_move :
+  forall (p : position) (m : move), legal p m = true -> san_parse p (san_print p m) = Some m.
+Proof. exact san_roundtrip. Qed.
+Print Assumptions C17_san_parses_back_to_the_same_move.
+
+(* ... hence no two legal moves of a position share a SAN text *)
+Theorem C17_san_is_unambiguous :
+  forall (p : position) (m1 m2 : move), legal p m1 = true -> legal p m2 = true -> san_print p m1 = san_print p m2 -> m1 = m2.
+Proof. exact san_injective. Qed.
+Print Assumptions C17_san_is_unambiguous.
+
+(* non-vacuity: three knights that can all reach d4: two on the b-file need file and rank, the third the file only; the texts differ and parse back *)
+Example C17_disambiguation_example :
+  let p := {| brd := set (set (set (set (set empty_board 4 (Some (White, King))) 60 (Some (Black, King))) 17 (Some (White, Knight))) 33 (Some (White, Knight))) 21 (Some (White, Knight));
+              stm := White; rights := {| wk := false; wq := false; bk := false; bq := false |}; ep := None; clock := 0; fullmove := 1 |} in
+  san_print p (Normal 17 27 None) = "Nb3d4" /\ san_print p (Normal 33 27 None) = "Nb5d4" /\ san_print p (Normal 21 27 None) = "Nfd4" /\
+  san_parse p "Nb3d4" = Some (Normal 17 27 None) /\ legal p (Normal 33 27 None) = true.
+Proof. vm_compute. repeat split; reflexivity. Qed.
